@@ -753,8 +753,11 @@ func EnvMain(args []string) {
 		select {
 		case <-done:
 		case <-time.After(4 * time.Second):
-			_ = runner.ShutDownProject()
-			<-done
+			go func() { _ = runner.ShutDownProject() }()
+			select {
+			case <-done:
+			case <-time.After(2 * time.Second):
+			}
 		}
 		launches := []map[string]any{}
 		mu.Lock()
